@@ -326,3 +326,73 @@ Fixpoint subhist_ok (id : option N) (addrs : list (option N)) (latest : option c
 
 Definition subhist_case_ok (c : subhist_case) : bool :=
   subhist_ok (hh_id c) (hh_addr_ids c) (hh_latest0 c) [] (hh_steps c).
+
+(* ---- the publisher under concurrency ---- *)
+
+(* Publisher.SetRoot and Publisher.ServeHTTP("head") share the root under p.lock.  A head
+   request READS the root in its critical section, then signs and writes the response
+   outside it; SetRoot may run in between.  Events of a schedule, in the order they
+   happen: *)
+Inductive pub_ev :=
+| PSetRoot (r : option cid)     (* SetRoot returned (None = cid.Undef) *)
+| PRead (i : N)                 (* request i went through its critical section *)
+| PServe (i : N).               (* request i wrote its response *)
+
+Record pub_state := PubState { p_root : option cid; p_pend : list (N * option cid) }.
+
+Fixpoint plookup (i : N) (l : list (N * option cid)) : option (option cid) :=
+  match l with
+  | [] => None
+  | (j, r) :: t => if j =? i then Some r else plookup i t
+  end.
+
+(* the root after a prefix of a schedule *)
+Fixpoint root_after (evs : list pub_ev) (root : option cid) : option cid :=
+  match evs with
+  | [] => root
+  | PSetRoot r :: t => root_after t r
+  | _ :: t => root_after t root
+  end.
+
+Section PubRun.
+  Variables privkey pubkey sigt : Type.
+  Variable pub : privkey -> pubkey.
+  Variable sign : privkey -> bytes -> sigt.
+
+  (* what each request is answered with: the head signed for the root IT READ *)
+  Fixpoint pub_run (topic : bytes) (k : privkey) (evs : list pub_ev) (st : pub_state)
+    : list (N * option (signed_head pubkey sigt)) :=
+    match evs with
+    | [] => []
+    | PSetRoot r :: t => pub_run topic k t (PubState r (p_pend st))
+    | PRead i :: t => pub_run topic k t (PubState (p_root st) ((i, p_root st) :: p_pend st))
+    | PServe i :: t =>
+      match plookup i (p_pend st) with
+      | Some r => (i, serve_head pub sign r topic k) :: pub_run topic k t st
+      | None => pub_run topic k t st      (* a response without a request: not a run *)
+      end
+    end.
+End PubRun.
+Arguments pub_run {privkey pubkey sigt} pub sign topic k evs st.
+
+(* observed schedule: the harness drives the real Publisher with a private key whose Sign
+   waits on a latch, so the order of events is known *)
+Inductive pub_obs :=
+| OSetRoot (r : option cid)
+| ORead (i : N)
+| OServe (i : N) (resp : option whead).     (* None = 204 No Content *)
+Record pubsched_case := PubSched { ps_topic : bytes; ps_key : N; ps_events : list pub_obs }.
+
+Fixpoint pubsched_ok (topic : bytes) (k : N) (evs : list pub_obs) (st : pub_state) : bool :=
+  match evs with
+  | [] => true
+  | OSetRoot r :: t => pubsched_ok topic k t (PubState r (p_pend st))
+  | ORead i :: t => pubsched_ok topic k t (PubState (p_root st) ((i, p_root st) :: p_pend st))
+  | OServe i resp :: t =>
+    match plookup i (p_pend st) with
+    | Some r => option_eqb head_eqb (serve_head Sym.pub Sym.sign r topic k) (option_map sym_head resp)
+    | None => false
+    end && pubsched_ok topic k t st
+  end.
+Definition pubsched_case_ok (c : pubsched_case) : bool :=
+  pubsched_ok (ps_topic c) (ps_key c) (ps_events c) (PubState None []).
